@@ -236,7 +236,7 @@ def other_call(proc, name):
             proc.as_dict(attrs=["name", "status", "ppid"])
         else:
             getattr(proc, name)()
-    except (psutil.Error, OSError, ValueError):
+    except Exception:  # noqa  (their answers are C01-C06's business)
         pass
 
 
@@ -256,6 +256,7 @@ def _fake(env, tag):
     from pv import fakeproc
     root = os.path.join(env["work"], "proc_" + tag)
     fp = fakeproc.FakeProc(root)
+    fp.add(1, comm=b"init", ppid=0, starttime=1)     # a system always has PID 1 (parent()/children() list the table)
     fakeproc.attach(psutil, root)
     return fp
 
